@@ -12,7 +12,7 @@ package table
 
 // limits every path that can create or address a record must respect
 //@ pure func okPutOp(p *regattapb.RequestOp_Put) bool = p != nil && len(p.Key) > 0 && len(p.Key) <= 1024 && len(p.Value) <= 2097152
-//@ pure func okDelOp(d *regattapb.RequestOp_DeleteRange) bool = d != nil && len(d.Key) > 0 && len(d.Key) <= 1024
+//@ pure func okDelOp(d *regattapb.RequestOp_DeleteRange) bool = d != nil && len(d.Key) > 0 && len(d.Key) <= 1024 && len(d.RangeEnd) <= 1024
 //@ pure func okRangeOp(r *regattapb.RequestOp_Range) bool = r != nil && len(r.Key) <= 1024 && len(r.RangeEnd) <= 1024
 //@ pure func okOp(o *regattapb.RequestOp) bool = o != nil && (typeIs(o.Request, *regattapb.RequestOp_RequestPut) ==> asType(o.Request, *regattapb.RequestOp_RequestPut) != nil && okPutOp(asType(o.Request, *regattapb.RequestOp_RequestPut).RequestPut)) && (typeIs(o.Request, *regattapb.RequestOp_RequestDeleteRange) ==> asType(o.Request, *regattapb.RequestOp_RequestDeleteRange) != nil && okDelOp(asType(o.Request, *regattapb.RequestOp_RequestDeleteRange).RequestDeleteRange)) && (typeIs(o.Request, *regattapb.RequestOp_RequestRange) ==> asType(o.Request, *regattapb.RequestOp_RequestRange) != nil && okRangeOp(asType(o.Request, *regattapb.RequestOp_RequestRange).RequestRange))
 //@ pure func okOps(ops []*regattapb.RequestOp) bool = forall j int :: 0 <= j && j < len(ops) ==> okOp(ops[j])
@@ -75,6 +75,7 @@ package table
 //@   requires t != nil && t.nh != nil && req != nil
 //@   ensures [C16.del.empty] len(req.Key) == 0 ==> err == serrors.ErrEmptyKey && t.nh.nprop == old(t.nh.nprop)
 //@   ensures [C16.del.klen]  len(req.Key) > 1024 ==> err == serrors.ErrKeyLengthExceeded && t.nh.nprop == old(t.nh.nprop)
+//@   ensures [C16.del.rlen]  len(req.Key) > 0 && len(req.Key) <= 1024 && len(req.RangeEnd) > 1024 ==> err == serrors.ErrKeyLengthExceeded && t.nh.nprop == old(t.nh.nprop)      // the end of a range is a key: same limit as for Range
 //@   ensures [C16.del.once]  t.nh.nprop <= old(t.nh.nprop) + 1
 //@   modifies t.nh.nprop
 
@@ -617,6 +618,8 @@ package table
 //@   modifies t.nh.nsync, t.nh.nstale
 //@ func (*ActiveTable).Iterator
 //@   maypanic
+//@   results s, err
 //@   requires t != nil && t.nh != nil && req != nil
-//@   ensures [C10.iter.path] (req.Linearizable ==> t.nh.nsync == old(t.nh.nsync) + 1 && t.nh.nstale == old(t.nh.nstale)) && (!req.Linearizable ==> t.nh.nstale == old(t.nh.nstale) + 1 && t.nh.nsync == old(t.nh.nsync))
+//@   ensures [C16.iter.limits] len(req.Key) > 1024 || len(req.RangeEnd) > 1024 ==> err == serrors.ErrKeyLengthExceeded && t.nh.nsync == old(t.nh.nsync) && t.nh.nstale == old(t.nh.nstale)      // the streamed read refuses what the unary read refuses
+//@   ensures [C10.iter.path] len(req.Key) <= 1024 && len(req.RangeEnd) <= 1024 ==> (req.Linearizable ==> t.nh.nsync == old(t.nh.nsync) + 1 && t.nh.nstale == old(t.nh.nstale)) && (!req.Linearizable ==> t.nh.nstale == old(t.nh.nstale) + 1 && t.nh.nsync == old(t.nh.nsync))
 //@   modifies t.nh.nsync, t.nh.nstale
